@@ -7,6 +7,8 @@ from harness.build import Scratch
 
 def run(chk):
     with Scratch() as sc:
+        from checks import c09
+        c09.activator_component(chk, sc)      # a TagActivator that does not hand a running handler to the trash step
         ecmc_design.design_for(chk, sc, "C08")
         runlevel.run_for(chk, "C08", sc)
     # a dumped and resumed run must keep the property: trashed candidates may not come back to life
